@@ -144,6 +144,27 @@ block data bd
   common /blk/ bv
 end block data bd
 """,
+    # a file whose name starts with a digit; entities declared with capital letters
+    "src/1d_heat.f90": """module HeatSolver
+  !! heat solver module
+  implicit none
+  integer :: MaxIter
+  !! iteration limit
+  type Grid_t
+    !! the grid
+    integer :: Nx
+    !! number of cells
+  end type Grid_t
+contains
+  subroutine Step(G, Dt)
+    !! one step
+    type(Grid_t) :: G
+    !! grid dummy
+    real :: Dt
+    !! time step
+  end subroutine Step
+end module HeatSolver
+""",
 }
 
 # abstract description: path -> (link kind at top level or None, sublink kind under its parent)
@@ -154,6 +175,7 @@ TOP = {
     # procedures (incl. generic interfaces and the constructor interface)
     "area": "proc", "scale": "proc", "setup": "proc", "area_impl": "proc", "done": "proc", "make_shape": "proc", "combine_i": "proc",
     "combine": "proc", "perimeter": "proc", "later": "proc", "hidden_proc": "proc",
+    "heatsolver": "module", "1d_heat.f90": "file", "grid_t": "type", "step": "proc",
 }
 # children: parent -> [(name, subkind)]
 CHILDREN = {
@@ -170,6 +192,9 @@ CHILDREN = {
     "main": [("counter", "variable")],
     "bd": [("bv", "variable"), ("blk", "common")],
     "setup": [("nval", "variable"), ("config", "namelist")],
+    "heatsolver": [("maxiter", "variable"), ("grid_t", "type"), ("step", "subroutine")],
+    "grid_t": [("nx", "variable")],
+    "step": [("g", "variable"), ("dt", "variable")],
 }
 LINK_SYNONYMS = {"module": ["module"], "submodule": ["submodule"], "type": ["type"], "proc": ["procedure", "proc", "subroutine", "function"],
                  "file": ["file"], "absinterface": ["interface", "absinterface"], "program": ["program"], "block": ["block"], "namelist": ["namelist"]}
@@ -257,13 +282,31 @@ def catalogue(private=False):
     # other children
     add("[[geo:callback(absinterface)]]", "callback")
     add("[[geo:combine(interface)]]", "combine")
-    add("[[combine:combine_i(modproc)]]", "combine/combine_i(modproc)")
+    add("[[combine:combine_i(modproc)]]", "combine_i")  # a `module procedure` line has no place of its own: the procedure it names
     add("[[shape(type):done(final)]]", "shape/done(final)")
     add("[[bd:blk(common)]]", "bd/blk(common)")
     add("[[geo:scale(function)]]", "scale")
     add("[[other:shape2(type)]]", "shape2")
     add("[[shape2:inner]]", "shape2/inner(variable)")
     add("[[main:counter]]", "main/counter(variable)")
+    # entities declared with capital letters, referenced in any letter case; a file name starting with a digit
+    add("[[HeatSolver]]", "heatsolver")
+    add("[[heatsolver]]", "heatsolver")
+    add("[[HEATSOLVER(module)]]", "heatsolver")
+    add("[[Grid_t]]", "grid_t")
+    add("[[grid_t(type)]]", "grid_t")
+    add("[[Step]]", "step")
+    add("[[step(proc)]]", "step")
+    add("[[HeatSolver:MaxIter]]", "heatsolver/maxiter(variable)")
+    add("[[heatsolver:maxiter(variable)]]", "heatsolver/maxiter(variable)")
+    add("[[heatsolver:step(subroutine)]]", "step")
+    add("[[Step:Dt]]", "step/dt(variable)")
+    add("[[step:g(variable)]]", "step/g(variable)")
+    add("[[grid_t:nx]]", "grid_t/nx(variable)")
+    add("[[Grid_t(type):Nx(variable)]]", "grid_t/nx(variable)")
+    add("[[1d_heat.f90]]", "1d_heat.f90")
+    add("[[1d_heat.f90(file)]]", "1d_heat.f90")
+    add("[[2d_nosuch.f90]]", "ABSENT")
     # absent / hidden
     add("[[nosuch]]", "ABSENT")
     add("[[nosuch(module)]]", "ABSENT")
